@@ -150,15 +150,46 @@ SCRIPTS = {
 }
 
 
+class _ConcreteSource:
+    '''Stands in for the engine when the chain content is fixed: deterministic values.'''
+
+    def __init__(self, eng):
+        self._eng = eng
+
+    def __getattr__(self, k):
+        return getattr(self._eng, k)
+
+    def fresh_bytes(self, name, n):
+        import hashlib
+        out = b''
+        k = 0
+        while len(out) < n:
+            out += hashlib.sha256(f'{name}/{k}'.encode()).digest()
+            k += 1
+        return out[:n]
+
+    def fresh_word(self, name, bits, signed=False):
+        return 1000 + int.from_bytes(self.fresh_bytes(name, 3), 'big')
+
+    def choice(self, name, n):
+        return 0
+
+
 class Sim:
     '''Real DB + BlockProcessor on the stubs (symbolic) or on LevelDB (native), plus the
     reference chain.'''
 
-    def __init__(self, *, reorg_limit=10, activation=None, daemon_height=100, wrap_concrete=True):
+    def __init__(self, *, reorg_limit=10, activation=None, daemon_height=100, wrap_concrete=True,
+                 concrete=False):
         from electrumx.lib.coins import BitcoinSVRegtest
         eng = engine()
         self.eng = eng
         self.native = symx.native()
+        # concrete content: hashes, values and spend selectors are fixed (deterministic); used where
+        # the schedule, not the chain content, is the symbolic input
+        self.concrete = concrete
+        if concrete:
+            eng = self.eng = _ConcreteSource(eng)
         if activation is None:
             activation = eng.fresh_int('activation')
         self.activation = activation
@@ -205,7 +236,7 @@ class Sim:
     def wrap(self, b):
         '''Concrete byte strings that may meet symbolic ones in a dict/set must be proxies too
         (all proxies hash alike so that lookups become == forks).'''
-        if self.native or isinstance(b, SBytes):
+        if self.native or self.concrete or isinstance(b, SBytes):
             return b
         return SBytes(list(b))
 
@@ -261,7 +292,7 @@ class Sim:
                 else:
                     script = self.wrap(SCRIPTS[kind])
                 value = eng.fresh_word(f'{name}_v{j}', 64)
-                if not self.native:
+                if not self.native and not self.concrete:
                     eng.assume(value <= 21 * 10 ** 14)
                 spendable = not ref_unspendable(script, height, self.activation)
                 routs.append(ROut(txhash, j, script, value, height, txnum, spendable, ref_hashX(script)))
@@ -297,7 +328,7 @@ class Sim:
         for j, kind in enumerate(outs):
             script = eng.fresh_bytes(f'{name}_s{j}', 3) if kind == 'S' else self.wrap(SCRIPTS[kind])
             value = eng.fresh_word(f'{name}_v{j}', 64)
-            if not self.native:
+            if not self.native and not self.concrete:
                 eng.assume(value <= 21 * 10 ** 14)
             spendable = not ref_unspendable(script, height, self.activation)
             routs.append(ROut(txhash, j, script, value, None, None, spendable, ref_hashX(script)))
@@ -315,7 +346,7 @@ class Sim:
         k = len(self.tx_hashes) + 1
         tail = bytes([k]) * 24
         h = eng.fresh_bytes(f'{name}_hash8', 8) + tail
-        if not self.native:
+        if not self.native and not self.concrete:
             for oname, oh in self.tx_hashes:
                 if frozenset((name, oname)) not in self.collide:
                     eng.assume(z3_not(deep_eq(h[:4], oh[:4])))
@@ -468,3 +499,8 @@ def _known(x):
 
 def _bytes(x):
     return bytes(x) if isinstance(x, (memoryview, bytearray)) else x
+
+
+def run_coro_plain(coro):
+    '''Drive a coroutine that never suspends (query helpers).'''
+    return run_coro(coro)
